@@ -2,27 +2,92 @@
     Statements only; proofs in Reactive/Effects*Proofs.v, ConvergeProofs.v. *)
 From Coq Require Import List ZArith.
 From LV Require Import Reactive.Graph Reactive.Effects Reactive.GraphInvariant Reactive.GraphPullBase
-                       Reactive.GraphProofs Reactive.EffectsProofs Reactive.EffectsRunProofs
-                       Reactive.ConvergeProofs.
+                       Reactive.GraphPullDefs Reactive.GraphProofs Reactive.EffectsProofs
+                       Reactive.EffectsRunProofs Reactive.EffectsOrderProofs Reactive.ConvergeProofs.
 Import ListNotations.
 Close Scope Z_scope.
 Open Scope nat_scope.
 
 (** [idle_converged]: for all programs, all histories of writes interleaved with partial executor
-    progress, and all choices of which ready task is polled next: whenever the run queue is empty,
-    every live effect that did not miss a notification while paused (documented as not replayed)
-    has run, has no notification or dirty flag pending, its last run's log shows the current
-    value of everything it tracked, and every memo it tracked is Clean with a consistent cone.
+    progress, and all choices of which ready task is polled next: whenever the run queue is empty
+    (and no task was found spinning), every live effect that did not miss a notification while
+    paused (documented as not replayed) has run, has no notification or dirty flag pending, its
+    last run's log shows the current value of everything it tracked, and every memo it tracked
+    is Clean with a consistent cone.
     Partial: effects whose bodies write signals are not covered ([pure_effects]); the
     self-feeding ones among them are the open finding F-C02-d. *)
 Theorem C02_idle_converged_partial :
   forall p, wf_prog p -> pure_effects p ->
   forall ops e, wf_ops p ops -> let s := run_fixed p ops in
-  ready s = [] -> effb p e = true ->
-  ealive (getn s e) = true -> epoll (getn s e) = false -> emissed (getn s e) = false ->
+  ready s = [] -> halted s = false -> effb p e = true ->
+  ealive (getn s e) = true -> emissed (getn s e) = false ->
   EffectConverged p s e.
-Proof. exact idle_converged. Qed.
+Proof. exact idle_converged_all. Qed.
 Print Assumptions C02_idle_converged_partial.
+
+(** between operations no task is unspawned or in the middle of a poll *)
+Theorem C02_tasks_at_rest_between_operations :
+  forall p, wf_prog p -> pure_effects p ->
+  forall ops, wf_ops p ops ->
+  halted (run_fixed p ops) = true \/
+  forall e, effb p e = true -> epoll (getn (run_fixed p ops) e) = false.
+Proof. exact reachable_at_rest. Qed.
+Print Assumptions C02_tasks_at_rest_between_operations.
+
+(** [no_glitch_in_run]: every value read during a run (of an effect or a memo body) is, at that
+    moment, the cached value of a Clean memo whose whole tracked cone is current, or the
+    signal's present value *)
+Theorem C02_no_glitch_in_run :
+  forall p, wf_prog p ->
+  forall m c j s stk t s' v,
+  Inv p stk t s -> ctx_ok stk c -> TopOK c s -> j < t -> j < length p -> effb p j = false ->
+  read_any p m c j s = (s', v) ->
+  Inv p stk t s' /\
+  (memob p j = true -> cache (getn s' j) = Some v /\ ConsistentM p s' j) /\
+  (sigb p j = true -> v = sval (getn s' j)).
+Proof. exact read_in_run_consistent. Qed.
+Print Assumptions C02_no_glitch_in_run.
+
+(** [paused_never_runs]: polling the task of an effect under a paused owner starts no body,
+    whatever its flags and for any update_if_necessary *)
+Theorem C02_paused_never_runs :
+  forall p chk e s, epaused (getn s e) = true -> only_diverge s (poll_task p chk e s).
+Proof. exact paused_never_runs. Qed.
+Print Assumptions C02_paused_never_runs.
+
+(** [disposed_never_runs]: after its owner is cleaned up, the next poll ends the task without
+    running anything, and marks no longer reach it *)
+Theorem C02_disposed_never_runs :
+  forall p chk e s, ealive (getn s e) = false -> trace (poll_task p chk e s) = trace s.
+Proof. exact disposed_never_runs. Qed.
+Print Assumptions C02_disposed_never_runs.
+
+Theorem C02_dead_effect_ignores_marks :
+  forall e s, ealive (getn s e) = false -> eff_mark_dirty e s = s /\ eff_notify e s = s.
+Proof. exact dead_effect_ignores_marks. Qed.
+Print Assumptions C02_dead_effect_ignores_marks.
+
+(** [wake_order_is_subscription_order]: a write to a signal read directly by effects appends the
+    woken tasks to the run queue in subscriber-list order; and the subscriber list is the order
+    of subscription (a new subscriber goes to the end, removing one keeps the others' order) *)
+Theorem C02_wake_order_is_subscriber_order :
+  forall p j s,
+  NoDup (subs (getn s j)) -> (forall k, In k (subs (getn s j)) -> effb p k = true) ->
+  ready (notify_sig p j s) = ready s ++ filter (wakes s) (subs (getn s j)).
+Proof. exact wake_order_is_subscriber_order. Qed.
+Print Assumptions C02_wake_order_is_subscriber_order.
+
+Theorem C02_subscribe_appends :
+  forall l x, subscribe l x = l \/ (~ In x l /\ subscribe l x = l ++ [x]).
+Proof. exact subscribe_appends. Qed.
+Print Assumptions C02_subscribe_appends.
+
+Theorem C02_unsubscribe_keeps_order :
+  forall l x, exists l1 l2,
+  (l = l1 ++ l2 /\ unsubscribe l x = l1 ++ l2 /\ ~ In x l) \/
+  (l = l1 ++ x :: l2 /\ unsubscribe l x = l1 ++ l2 /\ ~ In x l1).
+Proof. exact unsubscribe_keeps_order. Qed.
+Print Assumptions C02_unsubscribe_keeps_order.
 
 (** state-based form *)
 Theorem C02_idle_effect_converged :
